@@ -5,18 +5,29 @@ EXTENDS ProofList, Json
 B(kd, k, s, m) == [kind |-> kd, key |-> k, secret |-> s, mode |-> m]
 GenConfigs(sel) ==
   CASE sel = 1 -> { <<B("D", 1, 1, "plain"), B("U", 2, 1, "plain")>>,            \* D and U under two keys, one secret
-                    <<B("D", 1, 1, "plain"), B("D", 1, 2, "plain")>> }            \* two credentials of one key, two secrets
+                    <<B("D", 1, 1, "plain"), B("D", 1, 2, "plain")>>,             \* two credentials of one key, two secrets
+                    <<B("U", 1, 1, "plain")>> }                                   \* a single issuance commitment
     [] sel = 2 -> { <<B("D", 1, 1, "plain"), B("U", 2, 1, "side")>>,              \* r0 side door: same s_response, shifted effective secret
                     <<B("D", 1, 1, "side"), B("D", 2, 2, "side")>>,               \* both disclose attribute 0
                     <<B("D", 1, 1, "side"), B("D", 1, 2, "plain")>> }             \* one discloses attribute 0
     [] sel = 3 -> { <<B("U", 1, 1, "plain"), B("U", 2, 2, "plain")>>,
-                    <<B("D", 2, 2, "plain")>>,
+                    <<B("D", 2, 2, "plain")>>, <<B("U", 2, 1, "plain")>>,
                     <<B("D", 1, 1, "plain"), B("U", 2, 2, "plain")>> }
+    [] sel = 4 -> { <<B("D", 1, 1, "plain"), B("D", 1, 1, "plain"), B("D", 1, 2, "plain")>>,     \* three proofs: labels may recur non-contiguously
+                    <<B("D", 1, 1, "plain"), B("U", 2, 2, "plain"), B("D", 2, 1, "plain")>>,
+                    <<B("U", 1, 2, "plain"), B("D", 1, 1, "plain"), B("D", 2, 1, "plain")>> }
     [] OTHER -> Configs
 CONSTANT Sel
-GenInit == Init /\ bl \in GenConfigs(Sel)
-GenSpec == GenInit /\ [][Next]_vars
-Case == [bl |-> bl, sess |-> sess, att |-> att, verify |-> Verify, honest |-> Honest, linked |-> Linked,
+\* Sel = 4 (three builders): the session tuple and the keys are the honest ones of session 1, labels are used;
+\* only the choice of proofs and the labelling vary
+Focus == Sel = 4
+GenInit == /\ Init /\ bl \in GenConfigs(Sel)
+           /\ Focus => att.ctx = sess[1].ctx /\ att.nonce = sess[1].nonce /\ att.issig = sess[1].sig /\ att.useLabels /\ ~att.keysShort
+GenNext == \E p \in Pool, k \in Keys, l \in {"a", "b"} : (Focus => k = p.b.key) /\ Add(p, k, l)
+GenSpec == GenInit /\ [][IF Focus THEN GenNext ELSE Next]_vars
+\* the list and keys are those of an honest session (whatever the header says): these attempts are always replayed
+ListHonest == \E s \in {1, 2} : att.list = [i \in 1..Len(bl) |-> Proof(s, i, bl[i])] /\ att.keys = [i \in 1..Len(bl) |-> bl[i].key]
+Case == [bl |-> bl, sess |-> sess, att |-> att, verify |-> Verify, honest |-> Honest, linked |-> Linked, focus |-> ListHonest,
          complete |-> (Honest /\ (\A i \in 1..Len(bl) : bl[i].mode = "plain")
                               /\ (\A i, j \in 1..Len(bl) : Lab(i) = Lab(j) => bl[i].secret = bl[j].secret))]
 EmitC == PrintT(<<"C", ToJson(Case)>>)
